@@ -147,6 +147,7 @@ type Run struct {
 	// out-of-order hint or descend from one; riskBound is the largest MaxTime of a block without
 	// the hint that descends from an out-of-order block.
 	oooULIDs    map[string]bool
+	seenULIDs   map[string]bool // regular (not out-of-order) blocks observed so far
 	riskBound   int64
 	headDeleted map[int]map[int64]int
 	// Known finding "block-delete-lost-after-tombstone-cleanup-and-restart": (series,t) -> stage;
@@ -1140,20 +1141,45 @@ func (r *Run) afterCompaction() {
 }
 
 func (r *Run) scanBlocks() {
-	for _, b := range r.DB.Blocks() {
+	blocks := r.DB.Blocks()
+	for _, b := range blocks {
+		m := b.Meta()
+		if m.Compaction.FromOutOfOrder() {
+			r.oooULIDs[m.ULID.String()] = true
+		}
+	}
+	for _, b := range blocks {
 		m := b.Meta()
 		id := m.ULID.String()
 		if m.Compaction.FromOutOfOrder() {
-			r.oooULIDs[id] = true
 			continue
 		}
+		if r.seenULIDs == nil {
+			r.seenULIDs = map[string]bool{}
+		}
+		r.seenULIDs[id] = true
+		descends := false
 		for _, p := range m.Compaction.Parents {
 			if r.oooULIDs[p.ULID.String()] {
-				r.oooULIDs[id] = true
-				if m.MaxTime > r.riskBound {
-					r.riskBound = m.MaxTime
-				}
+				descends = true
 			}
+		}
+		if descends {
+			r.oooULIDs[id] = true
+		}
+		// For the restart bound only: Sources lists the level-1 blocks a block was built from,
+		// also across merges that happened inside one Compact call. A source that was never
+		// observed as a regular block was cut and merged within that call; it may have been an
+		// out-of-order block.
+		risky := descends
+		for _, src := range m.Compaction.Sources {
+			sid := src.String()
+			if r.oooULIDs[sid] || (m.Compaction.Level > 1 && !r.seenULIDs[sid]) {
+				risky = true
+			}
+		}
+		if risky && m.MaxTime > r.riskBound {
+			r.riskBound = m.MaxTime
 		}
 	}
 }
